@@ -15,10 +15,10 @@ func (Engine) Plan(property, tier string) core.Plan {
 	p := core.Plan{Level: "exploration", MaxWall: 170, Runs: 1000,
 		Components: map[string]string{
 			"posmint crypto/keys (dbKeybase), crypto/keys/mintkey (scrypt + AES-GCM armor), crypto (ed25519, multisig)": "real code",
-			"disk (goleveldb)":        "stub: SimDB (write events; crash before the first, second or third write of the next operation)",
+			"disk (goleveldb)":        "stub: SimDB (write events; crash before the first, second or third write of the next operation; power failure that drops the unsynced suffix)",
 			"crypto/rand (Create, salts)": "real, not seeded: excluded from the digest, no oracle depends on it",
 		},
-		Rule: "one case = one seeded history of create/import/update/delete/sign/export/import-into-a-second-keybase/coinbase/multisig steps with reopen and crash-before-write faults, passphrases from {empty, ascii, unicode, 300 characters, wrong}; compared with a key-store model after every step; " +
+		Rule: "one case = one seeded history of create/import/update/delete/sign/export/import-into-a-second-keybase/coinbase/multisig steps with reopen, crash-before-write and power-failure faults, passphrases from {empty, ascii, unicode, 300 characters, wrong}; compared with a key-store model after every step; " +
 			"distinct = distinct trace digest; non-trivial = at least one key stored and three operations",
 		Assumptions: []string{
 			"the signature half (a pure function) is checked only as a per-operation oracle on the keys living in the simulated keybase",
